@@ -34,6 +34,7 @@ public:
     ~RotatingFileSink() override;
 
     void send(const LogMessage &lmsg) override;
+    bool flush() override;
 
 private:
     class RotatingFileSinkPrivate;
